@@ -811,6 +811,9 @@ def check_lookups(net, acc, probes, orc):
         ans["nominalDirectionsAt"] = yaws
         ans["roadDirection"] = rd.yaw
         S0, S1, touching = orc.sets(p, dom_nd)
+        # a probe on the boundary of a lane: `containsPoint` (used by nominalDirectionsAt)
+        # and `distanceTo == 0` (used by the orientation of an intersection) may disagree
+        touching = touching or orc.sets(p, doms["laneAt"][0])[2]
         if touching:
             acc.cnt["skipped_touching"] += 1
         else:
